@@ -1877,6 +1877,17 @@ std::string Generator::GeneratorImpl::generateInitialisationCode(const AnalyserV
 {
     auto initialisingVariable = variable->initialisingVariable();
     auto scalingFactor = Generator::GeneratorImpl::scalingFactor(initialisingVariable);
+
+    if (!isCellMLReal(initialisingVariable->initialValue())) {
+        // The initial value is the name of a variable, which value (in the
+        // units of that variable) is that of its primary variable scaled, if
+        // that variable and its primary variable have different units.
+
+        auto initialValueVariable = owningComponent(initialisingVariable)->variable(initialisingVariable->initialValue());
+
+        scalingFactor /= Generator::GeneratorImpl::scalingFactor(initialValueVariable);
+    }
+
     std::string scalingFactorCode;
 
     if (!areNearlyEqual(scalingFactor, 1.0)) {
